@@ -65,7 +65,9 @@ fn zero_open(c: &Case) -> bool {
     let env = |v: Var| -> f32 { match v { Var::X => t.0, Var::Y => t.1, Var::Z => t.2,
         _ => { let k = c.dag.vs.iter().position(|x| *x == v).unwrap(); c.supplied.iter().find(|(kk, _)| *kk == k).map(|(_, v)| *v).unwrap_or(f32::NAN) } } };
     let vals = eval_arena(&c.dag.ctx, &env, &mut orc);
-    zero_tie_taint(&c.dag.ctx, &vals)[c.root.verif_index()]
+    // ... or an atan2 whose first argument is a zero (its sign decides between +pi and -pi, and the interval evaluator that drives a
+    // simplification does not track it), or abs of a negative zero
+    zero_tie_taint(&c.dag.ctx, &vals)[c.root.verif_index()] || orc.atan00 || orc.atan_y_zero || orc.abs_of_neg_zero
 }
 
 fn other_kinds<F: Function + MathFunction>(c: &Case, want: f32, backend: &str, bad: &mut Vec<String>) {
